@@ -176,6 +176,8 @@ struct Th {
 }
 
 const STEP_TIMEOUT: Duration = Duration::from_secs(20);
+/// how long a scheduled thread may stay silent before it is considered blocked for real
+const BLOCK_TIMEOUT: Duration = Duration::from_secs(3);
 
 pub fn run_schedule(p: &Program, prefix: &[usize]) -> Execution {
   let (objs, texts) = build_objects(p);
@@ -342,7 +344,7 @@ pub fn run_schedule(p: &Program, prefix: &[usize]) -> Execution {
     let _ = ths[t].to.send(Cmd::Go);
     // run until its next point
     loop {
-      match ths[t].from.recv_timeout(STEP_TIMEOUT) {
+      match ths[t].from.recv_timeout(BLOCK_TIMEOUT) {
         Ok(Report::AtPoint { site, kind }) => {
           ths[t].at = Some((site, kind));
           break;
@@ -366,8 +368,44 @@ pub fn run_schedule(p: &Program, prefix: &[usize]) -> Execution {
         }
         Ok(Report::ProbeResult(_)) => {}
         Err(RecvTimeoutError::Timeout) => {
-          ex.stuck = Some(format!("thread {t} did not reach a hook point within {STEP_TIMEOUT:?} after {:?} (blocked on a real lock?)", ex.trace.last()));
-          // leak the threads: they are blocked for real
+          // The scheduled thread is blocked for real. Either it waits for a lock that a PAUSED
+          // thread holds (an acquisition the hooks do not announce: a scheduling artefact), or it
+          // can never proceed (a genuine deadlock, e.g. on a lock it holds itself). Tell them
+          // apart by letting every other thread run to completion and looking again.
+          let at = ex.trace.last().cloned();
+          let mut others_done = true;
+          for o in 0..ths.len() {
+            if o == t || ths[o].finished {
+              continue;
+            }
+            loop {
+              let _ = ths[o].to.send(Cmd::Go);
+              match ths[o].from.recv_timeout(BLOCK_TIMEOUT) {
+                Ok(Report::Finished(a)) => {
+                  ex.answers[o] = a;
+                  ths[o].finished = true;
+                  break;
+                }
+                Ok(Report::AtPoint { .. }) => continue,
+                Ok(_) => continue,
+                Err(_) => {
+                  others_done = false;
+                  break;
+                }
+              }
+            }
+          }
+          let late = ths[t].from.recv_timeout(BLOCK_TIMEOUT);
+          if others_done && late.is_err() {
+            ex.deadlock = Some(format!(
+              "thread {t} never returned after {at:?}: it stayed blocked although every other thread ran to completion"
+            ));
+          } else {
+            ex.stuck = Some(format!(
+              "thread {t} blocked after {at:?} on a lock held by a paused thread (an acquisition without a hook point); others_done={others_done}"
+            ));
+          }
+          // leak the threads that are blocked for real
           for th in ths.iter_mut() {
             th.handle.take();
           }
@@ -502,6 +540,12 @@ pub fn explore(ctx: &mut Ctx, p: &Program, bound: usize, max_schedules: u64, k: 
       ctx.traces_validated += 1;
     }
     if ex.stuck.is_some() {
+      return;
+    }
+    if ex.deadlock.as_deref().map(|d| d.contains("never returned")).unwrap_or(false) {
+      // every such schedule costs seconds of waiting: one witness per program is enough
+      st.capped = true;
+      st.schedules = max;
       return;
     }
     let mut subtree = 0usize;
